@@ -11,6 +11,8 @@ def sh(c, cwd=None):
 def main():
     which = sys.argv[1] if len(sys.argv) > 1 else "benign"
     cases = json.load(open(os.path.join(HERE, which + ".json")))
+    if len(sys.argv) > 2:
+        cases = [c for c in cases if sys.argv[2] in c["name"]]
     if not os.path.isdir(W):
         sh("git -C /repo worktree add -q %s HEAD" % W)
     sh("git -C %s checkout -q --detach $(git -C /repo rev-parse HEAD) && git -C %s checkout -q -- ." % (W, W))
